@@ -78,6 +78,9 @@ func checkC16(c *Ctx) {
 		c.Undecided("C16-R1", "package tcell", "-", "not loaded")
 		return
 	}
+	c.Rule("C16-R8", "GetColor resolves every name of the table: the lookup in ColorNames is reached whatever the length of the name (a fixed-size folding buffer with an off-by-one bound rejects the longest name)")
+	c.Expect("C16-R8", 1)
+	checkColorNameLookupUnconditional(c, p, "C16-R8")
 	pk := p.pkg("")
 	keys, vals, pos, ok := constMap(pk, "ColorValues")
 	if !ok {
